@@ -51,7 +51,7 @@ impl Opts {
         use crate::verif_shim::{fs, process, ArgsSeam as Args};
         let args = Args::parse();
 
-        let (optimizations, vulnerabilities, qa) = if args.toml.is_some() {
+        let (toml_path, optimizations, vulnerabilities, qa) = if args.toml.is_some() {
             let toml_path = args.toml.unwrap();
 
             let toml_str =
@@ -61,6 +61,7 @@ impl Opts {
                 toml::from_str(&toml_str).expect("Could not convert toml contents to SolstatToml");
 
             (
+                Some(solstat_toml.path),
                 solstat_toml
                     .optimizations
                     .iter()
@@ -79,6 +80,7 @@ impl Opts {
             )
         } else {
             (
+                None,
                 optimizations::get_all_optimizations(),
                 vulnerabilities::get_all_vulnerabilities(),
                 qa::get_all_qa(),
@@ -87,6 +89,9 @@ impl Opts {
 
         let path = if args.path.is_some() {
             args.path.unwrap()
+        } else if toml_path.is_some() {
+            //Use the path set in the toml file when the `--path` flag is not passed
+            toml_path.unwrap()
         } else {
             match fs::read_dir("./contracts") {
                 Ok(_) => {}
